@@ -31,7 +31,8 @@ LEVEL_TEXT = ("Exploration: thousands of round trips over generated trees (all s
               "zero values, all type codes) x id offsets {0,1,2,7,1000,2^30} x source kinds (text "
               "stream, byte stream, file path) x header options x comment sets, with several writes "
               "per tree object. Held = held on those executions."
-              " A second tree of the same text length is written to the same path right after a read and read again.")
+              " A second tree of the same text length is written to the same path right after a read and read again."
+              " Generated trees come in several representations of the same values (strided, other dtypes / lists, one array as two columns, read-only where the harness never writes) and half of them were queried, a third put through aborted operations, before use. A rejected read (extra columns the text lacks) precedes some round trips.")
 LEVEL_NOTE = ("Trusts decimal.Decimal for the rounding reference and Python's float parser; comments "
               "are single-line and never start with the column banner (the reader documents "
               "dropping that line).")
